@@ -233,6 +233,24 @@ def _random_chunk(args):
     return out
 
 
+def long_runs() -> list[dict]:
+    """hundreds of attempts in one run: every counter and cap still exact"""
+    out = []
+    for entry, ma, lim in (("Retry", 300, -1), ("AsyncRetry", 300, 250), ("Retry", 1000, -1)):
+        cfg = {"maxAtt": ma, "lim": {k: -1 for k in ALL_CLASSES} | {"TRANSIENT": lim}, "maxUnk": -1, "D": 1000000,
+               "hasDefault": True, "strat": [], "legacy": [], "budget": -1, "bW": 100000, "handler": False,
+               "abort": False, "rc": False, "bsleep": False, "opname": True, "hooks": False, "adaptive": []}
+        n = min(ma, lim + 1) if lim >= 0 else ma
+        ev = []
+        for _ in range(n + 2):
+            ev += [{"e": "invoke", "out": "exc", "k": "TRANSIENT", "ra": -1, "dur": 1},
+                   {"e": "strategy", "ret": {"kind": "val", "v": 1}}, {"e": "sleep", "adv": "exact"}]
+        ev.append({"e": "deliver", "mode": "exec", "gap": 0})
+        obs = retryenv.run_scenario(cfg, ev, entry=entry, place="ctor", async_callbacks=False)
+        out.append({"cfg": full_cfg(cfg), "ev": obs, "variant": {"entry": entry, "long_run": ma}, "script": ev})
+    return out
+
+
 def random_traces(n: int, focus: str, workers: int = 14) -> list[dict]:
     base = seed() * 7_000_003 + 11
     per = max(25, n // (workers * 4) + 1)
@@ -382,6 +400,8 @@ def check(prop: str, tier: str) -> Report:
         extra_exports[xcfg] = {"behaviours_exported": len(xbehs), "export_states": xres.distinct,
                                "replays": xn, "replay_mismatches": len(xm)}
     rand = random_traces(pf["n_random"][tier], prop)
+    if prop in ("C01", "C03", "C05"):
+        rand += long_runs()
     walldiff = [t for t in mism if t.get("walldiff")]
     mism = [t for t in mism if not t.get("walldiff")]
     if prop == "C02":
